@@ -102,6 +102,7 @@ def check_quantiles(acc, d, ref, txt, case, sig, nq):
     dq = (abs(1.0 - ref.int_total()) + 1e-9) if fam == "schulz_zimm" else 1e-9
     F = ref.cdf_int if fam == "schulz_zimm" else ref.cdf
     n_obs = 0
+    points = []
     for q in quantile_grid(nq):
         rng = probe.QuantileRNG(q)
         try:
@@ -123,21 +124,38 @@ def check_quantiles(acc, d, ref, txt, case, sig, nq):
         if not math.isfinite(x) or x < lo - 1e-9 or x > hi + 1e-9 or (ref.discrete and abs(x - round(x)) > 1e-9):
             acc.violation("quantile_support", f"{txt}: the draw at quantile {q!r} is {x!r}: not finite / outside the support [{lo}, {hi}]", case, sig)
             return True
+        points.append((q, x))
+    # the law of the draw: the scripted stream makes the draw a deterministic function x(q) of the uniform variate.  A sampler may
+    # use the variate either way round (ppf(u) or ppf(1 - u)): both push the uniform law forward to the documented one.  The
+    # pointwise relation is required in ONE orientation for all grid points.
+    def bad_point(q, x, flip):
+        qq = 1.0 - q if flip else q
         if ref.discrete:
             up, dn = F(x), F(x - 1)
-            if fam == "schulz_zimm" and q > 1 - 2 * dq and up > 1 - 1e-12:
-                acc.count("schulz_zimm_top_quantile_beyond_total_mass")  # q above the un-normalised total: within the stated slack
-                continue
-            if up < q - dq or dn > q + dq:
-                acc.violation("quantile_law", f"{txt}: the draw at quantile q={q!r} is {x!r}, but the documented law has F({x!r})={up!r}, "
-                              f"F({x - 1!r})={dn!r} (need F(x) >= q > F(x-1), tolerance {dq:.3g})", case, sig)
-                return True
-        else:
-            up = F(x)
-            tol = 1e-6 + 1e-6 * min(q, 1 - q)
-            if abs(up - q) > tol:
-                acc.violation("quantile_law", f"{txt}: the draw at quantile q={q!r} is {x!r}, but the documented law has F({x!r})={up!r}", case, sig)
-                return True
+            if fam == "schulz_zimm" and qq > 1 - 2 * dq and up > 1 - 1e-12:
+                return None  # q above the un-normalised total: within the stated slack
+            if up < qq - dq or dn > qq + dq:
+                return (f"F({x!r})={up!r}, F({x - 1!r})={dn!r} (need F(x) >= q > F(x-1), tolerance {dq:.3g})")
+            return None
+        up = F(x)
+        tol = 1e-6 + 1e-6 * min(qq, 1 - qq)
+        if abs(up - qq) > tol:
+            return f"F({x!r})={up!r}"
+        return None
+    fails = {False: [(q, x, bad_point(q, x, False)) for q, x in points], True: [(q, x, bad_point(q, x, True)) for q, x in points]}
+    nbad = {k: sum(1 for _, _, m in v if m) for k, v in fails.items()}
+    if nbad[False] and nbad[True]:
+        flip = nbad[True] < nbad[False]
+        q, x, m = next(t for t in fails[flip] if t[2])
+        acc.violation("quantile_law", f"{txt}: the draw at quantile q={q!r} of the uniform stream{' (used as 1 - q)' if flip else ''} is {x!r}, but the "
+                      f"documented law has {m}; {nbad[flip]} of {len(points)} grid points disagree (the other orientation: {nbad[not flip]})", case, sig)
+        return True
+    if nbad[False]:
+        acc.count("quantile_stream_used_as_one_minus_u")
+    if fam == "schulz_zimm":
+        top = sum(1 for q, x in points if F(x) > 1 - 1e-12 and max(q, 1 - q) > 1 - 2 * dq)
+        if top:
+            acc.count("schulz_zimm_top_quantile_beyond_total_mass", top)
     acc.count("scripted_quantile_draws", n_obs)
     return n_obs > 0
 
